@@ -64,7 +64,7 @@ static void op_histF(int argc, char **argv)
 #define NF 4
 static mpq_t Q[NQ]; static int ql[NQ];
 static mpf_t F[NF]; static int fl[NF];
-static char why[160];
+static __thread char why[160];
 
 static int pool_check(void)
 {
